@@ -199,7 +199,7 @@ func sponsors() []*auth.ED25519Factory {
 
 type Env struct {
 	Rules   *genesis.Rules
-	RF      *genesis.ImmutableRuleFactory
+	RF      chain.RuleFactory
 	MM      metadata.MetadataManager
 	BH      *balance.PrefixBalanceHandler
 	BHx     chain.BalanceHandler // the balance handler handed to the real code (defaults to BH)
@@ -364,4 +364,18 @@ func (m *memoBH) SponsorStateKeys(addr codec.Address) state.Keys {
 		m.cache[addr] = k
 	}
 	return k
+}
+
+// TimedRF is a rule factory with one scheduled rule change: [Before] is in force for timestamps below
+// [At], [After] from [At] on (a network upgrade).
+type TimedRF struct {
+	At            int64
+	Before, After *genesis.Rules
+}
+
+func (t *TimedRF) GetRules(ts int64) chain.Rules {
+	if ts < t.At {
+		return t.Before
+	}
+	return t.After
 }
